@@ -20,6 +20,8 @@ os.environ.setdefault("MPLBACKEND", "Agg")
 os.environ.setdefault("TQDM_DISABLE", "1")
 HERE = os.path.dirname(os.path.abspath(__file__))
 ROOT = os.path.dirname(HERE)
+# evidence/ and replays/ are written below OUT (= /verif unless a seeded-change evaluation redirects them)
+OUT = os.environ.get("VERIF_OUT") or ROOT
 sys.path.insert(0, HERE)
 
 import findings  # noqa: E402
@@ -75,7 +77,7 @@ def pre_state(trace, k):
 
 
 def write_replay(prop, ctx, trace, verdict):
-    os.makedirs(os.path.join(ROOT, "replays"), exist_ok=True)
+    os.makedirs(os.path.join(OUT, "replays"), exist_ok=True)
     evs = trace["events"]
     k = verdict["k"]
     ev = evs[k - 1]
@@ -90,7 +92,7 @@ def write_replay(prop, ctx, trace, verdict):
             "origin": trace.get("origin", ""), "kind": trace.get("kind", "edit"),
             "trace": {"tid": 0, "origin": trace.get("origin", ""), "events": keep}}
     h = hashlib.sha1(json.dumps(body, sort_keys=True).encode()).hexdigest()[:12]
-    path = os.path.join(ROOT, "replays", "%s-%s.json" % (prop, h))
+    path = os.path.join(OUT, "replays", "%s-%s.json" % (prop, h))
     with open(path, "w") as f:
         json.dump(body, f)
     return path
@@ -142,8 +144,8 @@ def conclude(prop, ctx, res, level="model_checking", rule="", clause_prefix=None
             lines.append("  (%d further violations of %s by %s not listed)" % (n - 2, key[0], key[1]))
     for txt in res.mc_failures:
         nviol += 1
-        os.makedirs(os.path.join(ROOT, "replays"), exist_ok=True)
-        path = os.path.join(ROOT, "replays", "%s-mc-%s.txt" % (prop, hashlib.sha1(txt.encode()).hexdigest()[:12]))
+        os.makedirs(os.path.join(OUT, "replays"), exist_ok=True)
+        path = os.path.join(OUT, "replays", "%s-mc-%s.txt" % (prop, hashlib.sha1(txt.encode()).hexdigest()[:12]))
         with open(path, "w") as f:
             f.write(txt)
         lines.append("VIOLATION property=%s replay=%s clause=%s.Model" % (prop, path, prop))
@@ -169,8 +171,8 @@ def conclude(prop, ctx, res, level="model_checking", rule="", clause_prefix=None
     cov.update({k: v for k, v in res.extra.items() if k not in cov})
     ev = {"property_id": prop, "tier": ctx.tier, "seed": ctx.seed, "level": level, "coverage": cov,
           "assumptions": res.assumptions, "wall_s": round(wall, 2), "violations": nviol}
-    os.makedirs(os.path.join(ROOT, "evidence"), exist_ok=True)
-    with open(os.path.join(ROOT, "evidence", prop + ".json"), "w") as f:
+    os.makedirs(os.path.join(OUT, "evidence"), exist_ok=True)
+    with open(os.path.join(OUT, "evidence", prop + ".json"), "w") as f:
         json.dump(ev, f, indent=1, default=str)
     for ln in lines:
         print(ln)
